@@ -37,6 +37,8 @@ pub enum Aspect {
     Exchange,
     /// C18: futures and envelopes are Send (+Sync)
     Send,
+    /// C03: request and response envelopes are serialized and compared with the expected infoset
+    EnvelopesSer,
 }
 
 pub struct EnvExpect {
@@ -231,6 +233,12 @@ impl Loopback {
 const DRIVER_ITEMS: &str = r#"
 fn rt() -> tokio::runtime::Runtime { tokio::runtime::Builder::new_current_thread().enable_all().build().unwrap() }
 fn harness_url() -> String { std::env::var("VH_URL").unwrap_or_default() }
+/// the location the generated constructor chose, moved to the harness's listener: everything after
+/// scheme://authority (path and query) stays as generated
+fn rebased(location: &str) -> String {
+    let rest = location.splitn(4, '/').nth(3).map(|r| format!("/{r}")).unwrap_or_default();
+    format!("http://127.0.0.1:{}{rest}", std::env::var("VH_PORT").unwrap_or_default())
+}
 fn err_class(e: &g::error::SoapError) -> String {
     match e {
         g::error::SoapError::Restriction(m) => format!("Restriction:{m}"),
@@ -351,6 +359,11 @@ pub fn judge_emitted(ex: &Externs, dir: &Path, case: &Case, out: &Outcome, tape:
                 }
             };
             match aspect {
+                Aspect::EnvelopesSer => {
+                    // C03: every envelope, request or response, is a generated type that is serialized
+                    probes.push(Probe::Ser { expr: ev.expr.clone() });
+                    meta.push(("ser".into(), e.op, Some(ev)));
+                }
                 Aspect::Envelopes => {
                     if e.is_input {
                         probes.push(Probe::Ser { expr: ev.expr.clone() });
@@ -409,10 +422,14 @@ pub fn judge_emitted(ex: &Externs, dir: &Path, case: &Case, out: &Outcome, tape:
                     }
                     for status in [200u16, 500] {
                         replies.push((status, reply_xml.clone()));
+                        // the successful call goes to the address the constructor took from the WSDL port
+                        // (host and port replaced by the listener's), the failing one to a location set
+                        // by the caller
+                        let loc = if status == 200 { "rebased(&svc.location)" } else { "harness_url()" };
                         let okarm = if op.output.is_some() { "Ok(v) => emit(n, \"call\", true, \"ok\", &format!(\"{v:?}\"))," } else { "Ok(()) => emit(n, \"call\", true, \"ok\", \"()\")," };
                         probes.push(Probe::Raw {
                             code: format!(
-                                "    let mut svc = g::{svc}::new(Some(({:?}.to_string(), {:?}.to_string())));\n    svc.location = harness_url();\n    let req = {};\n    match rt().block_on(svc.{method}(req)) {{\n        {okarm}\n        Err(e) => emit(n, \"call\", false, &err_class(&e), \"\"),\n    }}\n",
+                                "    let mut svc = g::{svc}::new(Some(({:?}.to_string(), {:?}.to_string())));\n    svc.location = {loc};\n    let req = {};\n    match rt().block_on(svc.{method}(req)) {{\n        {okarm}\n        Err(e) => emit(n, \"call\", false, &err_class(&e), \"\"),\n    }}\n",
                                 creds_user, creds_pass, ev.expr
                             ),
                         });
@@ -485,6 +502,7 @@ fn finish(
     let mut env = vec![];
     if let Some(lb) = &lb {
         env.push(("VH_URL", format!("http://127.0.0.1:{}/harness/endpoint?x=1", lb.port)));
+        env.push(("VH_PORT", lb.port.to_string()));
         *lb.replies.lock().unwrap() = replies.into_iter().collect();
     }
     let answers = drv::run(dir, probes.len(), 10, &env);
@@ -571,8 +589,14 @@ fn finish(
                         if r.method != "POST" {
                             push(&mut fails, "exchange:method-not-post".into(), r.method.clone());
                         }
-                        if r.target != "/harness/endpoint?x=1" {
-                            push(&mut fails, "exchange:wrong-request-target".into(), r.target.clone());
+                        // 200: path and query of the WSDL port address; 500: the location the caller set
+                        let want_target = if status_ok {
+                            url::Url::parse(&w.address).map(|u| format!("{}{}", u.path(), u.query().map(|q| format!("?{q}")).unwrap_or_default())).unwrap_or_default()
+                        } else {
+                            "/harness/endpoint?x=1".to_string()
+                        };
+                        if r.target != want_target {
+                            push(&mut fails, "exchange:wrong-request-target".into(), format!("{} (the port address is {}, expected target {want_target})", r.target, w.address));
                         }
                         if last_req_ser.as_ref().is_some_and(|s| s.as_bytes() != r.body.as_slice()) {
                             push(&mut fails, "exchange:body-is-not-the-serialized-envelope".into(), format!("{} bytes vs {}", r.body.len(), last_req_ser.as_ref().map(|s| s.len()).unwrap_or(0)));
